@@ -262,6 +262,218 @@ example : model 10 0 [.dkgStarted 10, .beaconDkgStarted 10, .dkgStarted 10,
     = [true, true, false, true, true] := by decide
 example : holdsSeq [.dkgStarted 1, .dkgStarted 1] [true, true] = false := by decide
 
+/-! ## Expiry: histories with a moving (monotone) clock -/
+
+theorem mem_sweep_of_live (span now : Nat) (es : Entries) (x : Key × Nat) (hx : x ∈ es)
+    (hl : ¬ now - x.2 > span) : x ∈ sweep span now es := by
+  unfold sweep
+  induction es with
+  | nil => cases hx
+  | cons h t ih =>
+    simp only [List.dropWhile_cons]
+    split
+    · rename_i hp
+      simp only [List.mem_cons] at hx
+      rcases hx with rfl | hx
+      · simp at hp; exact absurd hp hl
+      · exact ih hx
+    · exact hx
+
+theorem sweep_sublist (span now : Nat) (es : Entries) : (sweep span now es).Sublist es :=
+  List.dropWhile_sublist _
+
+theorem live_of_mem_sweep (span now : Nat) (es : Entries)
+    (hs : es.Pairwise (fun a b => a.2 ≤ b.2)) (x : Key × Nat) (hx : x ∈ sweep span now es) :
+    now - x.2 ≤ span := by
+  unfold sweep at hx
+  induction es with
+  | nil => simp at hx
+  | cons h t ih =>
+    simp only [List.dropWhile_cons] at hx
+    have hs' := List.pairwise_cons.1 hs
+    split at hx
+    · exact ih hs'.2 hx
+    · rename_i hp
+      simp only [decide_eq_true_eq] at hp
+      simp only [List.mem_cons] at hx
+      rcases hx with rfl | hx
+      · omega
+      · have := hs'.1 x hx; omega
+
+theorem sweep_idem (span now : Nat) (es : Entries) :
+    sweep span now (sweep span now es) = sweep span now es := by
+  unfold sweep
+  induction es with
+  | nil => rfl
+  | cons h t ih =>
+    simp only [List.dropWhile_cons]
+    split
+    · exact ih
+    · rename_i hp; simp [hp]
+
+/-- invariant of one cache at clock `now` -/
+structure CInv (now : Nat) (es : Entries) : Prop where
+  sorted : es.Pairwise (fun a b => a.2 ≤ b.2)
+  le_now : ∀ e ∈ es, e.2 ≤ now
+  nodup : (keys es).Nodup
+
+theorem CInv.sweep {now : Nat} {es : Entries} (span : Nat) (h : CInv now es) :
+    CInv now (sweep span now es) :=
+  ⟨h.sorted.sublist (sweep_sublist _ _ _),
+   fun e he => h.le_now e ((sweep_sublist _ _ _).subset he),
+   h.nodup.sublist ((sweep_sublist _ _ _).map _)⟩
+
+/-- invariant tying the caches to the specification's record of handled events -/
+structure TInv (span now : Nat) (d : Dedup) (acc : List (Event × Nat)) : Prop where
+  cinv : ∀ c, CInv now (d c)
+  fromCache : ∀ c k t, (k, t) ∈ d c → ∃ e, cacheOf e = c ∧ cacheKey e = k ∧ (e, t) ∈ acc
+  fromAcc : ∀ e t, (e, t) ∈ acc → (cacheKey e, t) ∈ d (cacheOf e) ∨ now - t > span
+
+theorem mem_keys_iff (es : Entries) (k : Key) : k ∈ keys es ↔ ∃ t, (k, t) ∈ es := by
+  simp [keys]
+
+private theorem runItems_spec (span : Nat) (items : List Item) (now : Nat) (d : Dedup)
+    (acc : List (Event × Nat)) (hI : TInv span now d acc) :
+    runItems span now d items = specItems span now acc items := by
+  induction items generalizing now d acc with
+  | nil => rfl
+  | cons it rest ih =>
+    cases it with
+    | adv s =>
+      simp only [runItems, specItems]
+      apply ih
+      refine ⟨fun c => ⟨(hI.cinv c).sorted, fun e he => ?_, (hI.cinv c).nodup⟩, hI.fromCache, ?_⟩
+      · have := (hI.cinv c).le_now e he; omega
+      · intro e t h
+        rcases hI.fromAcc e t h with h | h
+        · exact Or.inl h
+        · exact Or.inr (by omega)
+    | ev e =>
+      simp only [runItems, specItems, notify]
+      have hc := hI.cinv (cacheOf e)
+      have hc' := hc.sweep span
+      -- the membership test agrees with the specification's "handled within the period"
+      have hblk : has (sweep span now (d (cacheOf e))) (cacheKey e) =
+          acc.any (fun p => p.1 == e && decide (now - p.2 ≤ span)) := by
+        rw [Bool.eq_iff_iff, has_iff, mem_keys_iff, List.any_eq_true]
+        constructor
+        · rintro ⟨t, ht⟩
+          have hlive := live_of_mem_sweep span now _ hc.sorted _ ht
+          obtain ⟨e', h1, h2, h3⟩ := hI.fromCache _ _ _ ((sweep_sublist _ _ _).subset ht)
+          have : e' = e := event_key_injective (by rw [h1, h2])
+          subst this
+          exact ⟨(e', t), h3, by simp [hlive]⟩
+        · rintro ⟨⟨e', t⟩, hm, hp⟩
+          simp only [Bool.and_eq_true, beq_iff_eq, decide_eq_true_eq] at hp
+          obtain ⟨rfl, hlive⟩ := hp
+          rcases hI.fromAcc _ _ hm with h | h
+          · exact ⟨t, mem_sweep_of_live span now _ _ h (by simpa using hlive)⟩
+          · omega
+      unfold add
+      rw [sweep_idem, hblk]
+      cases hb : acc.any (fun p => p.1 == e && decide (now - p.2 ≤ span))
+      · -- not blocked: handled, recorded
+        simp only [Bool.false_eq_true, if_false, Bool.not_false]
+        congr 1
+        apply ih
+        have hnotin : cacheKey e ∉ keys (sweep span now (d (cacheOf e))) := by
+          intro h; have := (has_iff _ _).2 h; rw [hblk, hb] at this; cases this
+        refine ⟨fun c => ?_, ?_, ?_⟩
+        · by_cases hcc : c = cacheOf e
+          · subst hcc
+            simp only [Dedup.set, if_true]
+            refine ⟨?_, ?_, ?_⟩
+            · rw [List.pairwise_append]
+              refine ⟨hc'.sorted, by simp, ?_⟩
+              intro a ha b hb'
+              simp only [List.mem_singleton] at hb'
+              subst hb'
+              exact hc'.le_now a ha
+            · intro x hx
+              simp only [List.mem_append, List.mem_singleton] at hx
+              rcases hx with hx | rfl
+              · exact hc'.le_now x hx
+              · exact Nat.le_refl _
+            · simp only [keys, List.map_append, List.map_cons, List.map_nil]
+              rw [List.nodup_append]
+              refine ⟨hc'.nodup, by simp, ?_⟩
+              intro a ha b hb'
+              simp only [List.mem_singleton] at hb'
+              subst hb'
+              intro eab; subst eab; exact hnotin ha
+          · simp only [Dedup.set, hcc, if_false]; exact hI.cinv c
+        · intro c k t hm
+          by_cases hcc : c = cacheOf e
+          · subst hcc
+            simp only [Dedup.set, if_true, List.mem_append, List.mem_singleton, Prod.mk.injEq] at hm
+            rcases hm with hm | ⟨rfl, rfl⟩
+            · obtain ⟨e', a, b, c'⟩ := hI.fromCache _ _ _ ((sweep_sublist _ _ _).subset hm)
+              exact ⟨e', a, b, by simp [c']⟩
+            · exact ⟨e, rfl, rfl, by simp⟩
+          · simp only [Dedup.set, hcc, if_false] at hm
+            obtain ⟨e', a, b, c'⟩ := hI.fromCache _ _ _ hm
+            exact ⟨e', a, b, by simp [c']⟩
+        · intro e' t hm
+          simp only [List.mem_cons, Prod.mk.injEq] at hm
+          rcases hm with ⟨rfl, rfl⟩ | hm
+          · left; simp [Dedup.set]
+          · rcases hI.fromAcc e' t hm with h | h
+            · by_cases hcc : cacheOf e' = cacheOf e
+              · by_cases hex : now - t > span
+                · exact Or.inr hex
+                · left
+                  simp only [Dedup.set, hcc, if_true, List.mem_append]
+                  left
+                  rw [hcc] at h
+                  exact mem_sweep_of_live span now _ _ h hex
+              · left; simp only [Dedup.set, hcc, if_false]; exact h
+            · exact Or.inr h
+      · -- blocked: dropped as a duplicate, only the sweep happened
+        simp only [if_true, Bool.not_true]
+        congr 1
+        apply ih
+        refine ⟨fun c => ?_, ?_, ?_⟩
+        · by_cases hcc : c = cacheOf e
+          · subst hcc; simp only [Dedup.set, if_true]; exact hc'
+          · simp only [Dedup.set, hcc, if_false]; exact hI.cinv c
+        · intro c k t hm
+          by_cases hcc : c = cacheOf e
+          · subst hcc
+            simp only [Dedup.set, if_true] at hm
+            exact hI.fromCache _ _ _ ((sweep_sublist _ _ _).subset hm)
+          · simp only [Dedup.set, hcc, if_false] at hm
+            exact hI.fromCache _ _ _ hm
+        · intro e' t hm
+          rcases hI.fromAcc e' t hm with h | h
+          · by_cases hcc : cacheOf e' = cacheOf e
+            · by_cases hex : now - t > span
+              · exact Or.inr hex
+              · left
+                simp only [Dedup.set, hcc, if_true]
+                rw [hcc] at h
+                exact mem_sweep_of_live span now _ _ h hex
+            · left; simp only [Dedup.set, hcc, if_false]; exact h
+          · exact Or.inr h
+
+/-- **handled_once_per_period**: for every history of deliveries and clock advances (monotone
+    clock, any seeds / hashes / blocks / wallet ids, any period) on fresh deduplicators, a delivery
+    is told to proceed iff no delivery of the same *event* was told to proceed within the last
+    `span` seconds: never twice within the caching period, and again after it. -/
+theorem handled_once_per_period (span now : Nat) (items : List Item) :
+    runItems span now Dedup.empty items = specItems span now [] items :=
+  runItems_spec span items now Dedup.empty []
+    ⟨fun _ => ⟨by simp [Dedup.empty], by simp [Dedup.empty], by simp [Dedup.empty, keys]⟩,
+     by simp [Dedup.empty], by simp⟩
+
+/-- the timed monitor accepts every output of the timed model -/
+theorem holdsItems_model (span : Nat) (items : List Item) :
+    holdsItems span items (runItems span 0 Dedup.empty items) = true := by
+  simp [holdsItems, handled_once_per_period]
+
+example : runItems 604800 0 Dedup.empty
+    [.ev (.dkgStarted 1), .adv 604000, .ev (.dkgStarted 1), .adv 1000, .ev (.dkgStarted 1),
+     .ev (.dkgStarted 1)] = [true, false, true, false] := by decide
+
 /-! ## Concurrent deliveries: all schedules -/
 
 /-- invariant of the `addGate` semantics inside one caching window -/
